@@ -232,4 +232,110 @@ theorem HttpHeadersOk.of_clean (H : Headers) (h : HeadersClean H) : HttpHeadersO
       rw [hget]
       exact ⟨hne, hfv, atoll_digits kv.2 hne hd⟩
 
+/-! ### raw modes: every line of the application's header block is kept -/
+
+theorem tok_not_sp (c : UInt8) (h : isTokenChar c = true) : isSpHt c = false := by
+  unfold isTokenChar at h
+  simp only [Bool.and_eq_true, Bool.not_eq_true'] at h
+  have hs := h.2
+  unfold isSpHt
+  cases h32 : decide (c = 32) with
+  | true =>
+    have : c = 32 := of_decide_eq_true h32
+    rw [this] at hs; exact absurd hs (by decide)
+  | false =>
+    cases h9 : decide (c = 9) with
+    | true =>
+      have : c = 9 := of_decide_eq_true h9
+      rw [this] at hs; exact absurd hs (by decide)
+    | false => simp [of_decide_eq_false h32, of_decide_eq_false h9]
+
+theorem takeWhile_stop (p : UInt8 → Bool) (x : UInt8) (hx : p x = false) : ∀ (k rest : Bytes), (∀ c ∈ k, p c = true) →
+    (k ++ x :: rest).takeWhile p = k ∧ (k ++ x :: rest).dropWhile p = x :: rest := by
+  intro k
+  induction k with
+  | nil => intro rest _; simp [hx]
+  | cons c cs ih =>
+    intro rest h
+    have hc : p c = true := h c (by simp)
+    have ⟨i1, i2⟩ := ih rest (fun y hy => h y (by simp [hy]))
+    simp only [List.cons_append, List.takeWhile_cons, List.dropWhile_cons, hc, if_true]
+    exact ⟨by rw [i1], i2⟩
+
+/-- `cgi_headers_parser::add_header` on an ordinary `Name: value` line (token name other than `Status` / `Content-Length`):
+the line is appended to the added headers — whatever lines with the same name came before, whether the value is empty or not -/
+theorem rawAddHeader_line (h : Headers) (k v : Bytes) (hk : k ≠ []) (htok : ∀ c ∈ k, isTokenChar c = true)
+    (hsp : isSpecialName k = false) (hv : ∀ c, v.head? = some c → isSpHt c = false) :
+    rawAddHeader h (k ++ [58, 32] ++ v) = { h with added := h.added ++ [k ++ [58, 32] ++ v] } := by
+  have e : k ++ [58, 32] ++ v = k ++ 58 :: (32 :: v) := by simp
+  have hd0 : (k ++ 58 :: (32 :: v)).dropWhile isSpHt = k ++ 58 :: (32 :: v) := by
+    cases k with
+    | nil => exact absurd rfl hk
+    | cons c cs => simp [List.dropWhile_cons, tok_not_sp c (htok c (by simp))]
+  have ⟨t1, t2⟩ := takeWhile_stop isTokenChar 58 (by decide) k (32 :: v) htok
+  have hvd : v.dropWhile isSpHt = v := by
+    cases v with
+    | nil => rfl
+    | cons c cs => simp [List.dropWhile_cons, hv c rfl]
+  have hke : k.isEmpty = false := by cases k with
+    | nil => exact absurd rfl hk
+    | cons _ _ => rfl
+  have hkept : Gen.rawLineKept = true := rfl
+  unfold rawAddHeader
+  simp only [e, hd0, t1, t2]
+  have h58 : (58 :: 32 :: v).dropWhile isSpHt = 58 :: 32 :: v := by simp [List.dropWhile_cons, show isSpHt 58 = false by decide]
+  simp only [h58, hke, Bool.false_eq_true, if_false, hkept, if_true]
+  have h32 : (32 :: v).dropWhile isSpHt = v := by simp [List.dropWhile_cons, show isSpHt 32 = true by decide, hvd]
+  rw [h32]
+  unfold Headers.add
+  have : (Gen.addHeaderAsSet.map b).any (ieq k) = false := hsp
+  rw [this]
+  simp only [Bool.false_eq_true, if_false, lit_headerSep_lineEnd.2]
+  simp
+
+/-- an ordinary header line of a raw-mode block -/
+structure RawLineOk (kv : Bytes × Bytes) : Prop where
+  name : kv.1 ≠ []
+  tok : ∀ c ∈ kv.1, isTokenChar c = true
+  notSpecial : isSpecialName kv.1 = false
+  value : ∀ c, kv.2.head? = some c → isSpHt c = false
+  noCR : ∀ c ∈ kv.2, c ≠ 13
+
+theorem rawAddHeader_fold : ∀ (ls : List (Bytes × Bytes)) (h : Headers), (∀ kv ∈ ls, RawLineOk kv) →
+    (ls.map fun kv => kv.1 ++ [58, 32] ++ kv.2).foldl rawAddHeader h =
+      { h with added := h.added ++ ls.map fun kv => kv.1 ++ [58, 32] ++ kv.2 } := by
+  intro ls
+  induction ls with
+  | nil => intro h _; simp
+  | cons kv rest ih =>
+    intro h hok
+    have o := hok kv (by simp)
+    simp only [List.map_cons, List.foldl_cons]
+    rw [rawAddHeader_line h kv.1 kv.2 o.name o.tok o.notSpecial o.value, ih _ (fun x hx => hok x (by simp [hx]))]
+    simp
+
+/-- **raw modes keep every header line.**  Of a stream that starts with a header block of ordinary `Name: value` lines —
+names may repeat, in any mix of case; values may be empty — the parser hands the connection a header set whose added
+lines are exactly those lines, all of them, in the order written (and passes on exactly what follows the block) -/
+theorem raw_lines_all_kept (ls : List (Bytes × Bytes)) (hok : ∀ kv ∈ ls, RawLineOk kv) (body : Bytes) :
+    filterOf true (((ls.map fun kv => kv.1 ++ [58, 32] ++ kv.2).map (· ++ [13, 10])).flatten ++ 13 :: 10 :: body) = body ∧
+    (({} : RawParser).consume (((ls.map fun kv => kv.1 ++ [58, 32] ++ kv.2).map (· ++ [13, 10])).flatten ++ 13 :: 10 :: body)).2.2 =
+      some { map := [], added := ls.map fun kv => kv.1 ++ [58, 32] ++ kv.2 } := by
+  have hl : ∀ l ∈ (ls.map fun kv => kv.1 ++ [58, 32] ++ kv.2), l ≠ [] ∧ ∀ c ∈ l, c ≠ 13 := by
+    intro l hl
+    obtain ⟨kv, hkv, rfl⟩ := List.mem_map.1 hl
+    have o := hok kv hkv
+    refine ⟨by simp, ?_⟩
+    intro c hc
+    simp only [List.mem_append, List.mem_cons, List.not_mem_nil, or_false] at hc
+    rcases hc with (hc | hc | hc) | hc
+    · intro h13; have := o.tok c hc; rw [h13] at this; exact absurd this (by decide)
+    · rw [hc]; decide
+    · rw [hc]; decide
+    · exact o.noCR c hc
+  have := consume_block _ {} body rfl rfl hl
+  refine ⟨this.1, ?_⟩
+  rw [this.2.2, rawAddHeader_fold ls _ hok]
+  simp
+
 end Cppcms.C03
